@@ -1,0 +1,57 @@
+/*
+* Verification hooks (off by default).  With SVT_AV1_VERIF undefined every macro below
+* expands to nothing and the library is unchanged.  With it defined the library calls two
+* weak callbacks that a simulation harness may provide.
+*/
+#ifndef EbVerifHooks_h
+#define EbVerifHooks_h
+
+#ifdef SVT_AV1_VERIF
+#include <stdint.h>
+#ifdef __cplusplus
+extern "C" {
+#endif
+void svt_verif_spin(void) __attribute__((weak));
+void svt_verif_event(int kind, uint64_t a, uint64_t b, uint64_t c, uint64_t d)
+    __attribute__((weak));
+#ifdef __cplusplus
+}
+#endif
+#define SVT_VERIF_SPIN()                   \
+    do {                                   \
+        if (svt_verif_spin)                \
+            svt_verif_spin();              \
+    } while (0)
+#define SVT_VERIF_EVENT(kind, a, b, c, d)                                               \
+    do {                                                                                \
+        if (svt_verif_event)                                                            \
+            svt_verif_event((kind), (uint64_t)(a), (uint64_t)(b), (uint64_t)(c),        \
+                            (uint64_t)(d));                                             \
+    } while (0)
+/* event kinds */
+#define SVT_VERIF_EV_SRM_POST 1 /* a=resource, b=wrapper */
+#define SVT_VERIF_EV_SRM_ASSIGN 2 /* a=process fifo, b=wrapper, c=queue(muxing) */
+#define SVT_VERIF_EV_SRM_GET_FULL 3 /* a=fifo, b=wrapper (NULL if none), c=blocking */
+#define SVT_VERIF_EV_SRM_GET_EMPTY 4 /* a=fifo, b=wrapper, c=live_count after */
+#define SVT_VERIF_EV_SRM_RELEASE 5 /* a=resource, b=wrapper, c=live_count after, d=returned to pool */
+#define SVT_VERIF_EV_SRM_INC_LIVE 6 /* a=resource, b=wrapper, c=live_count after */
+#define SVT_VERIF_EV_SRM_SHUTDOWN 7 /* a=resource */
+#define SVT_VERIF_EV_SRM_NEW 8 /* a=resource, b=object count, c=empty queue, d=full queue */
+#define SVT_VERIF_EV_SRM_FIFO 9 /* a=resource, b=fifo, c=0 producer-empty/1 consumer-full, d=index */
+#define SVT_VERIF_EV_SRM_WRAPPER 10 /* a=resource, b=wrapper, c=index */
+#define SVT_VERIF_EV_SEG_SB_START 20 /* a=picture number, b=tile group idx, c=segment index, d=sb index */
+#define SVT_VERIF_EV_SEG_SB_END 21
+#define SVT_VERIF_EV_SEG_ASSIGN 22 /* a=picture number, b=tile group idx, c=segment index, d=input type */
+#define SVT_VERIF_EV_SEG_PIC 23 /* a=picture number, b=tile group idx, c=(sb cols<<16|sb rows of tile group), d=(seg cols<<16|seg rows) */
+#define SVT_VERIF_EV_DEC_TOOL 40 /* a=tool id, b=frame number, c=mi_row, d=mi_col */
+#define SVT_VERIF_EV_DEC_FRAME_HDR 41 /* a=field id, b=value */
+#else
+#define SVT_VERIF_SPIN() \
+    do {                 \
+    } while (0)
+#define SVT_VERIF_EVENT(kind, a, b, c, d) \
+    do {                                  \
+    } while (0)
+#endif
+
+#endif // EbVerifHooks_h
